@@ -390,7 +390,7 @@ REAL_SPECS = [
     dict(ens="GrandCanonical", atoms="M1", table=[["e", "E_transrot"]], calc="harmonic", T=300.0, mu=-0.1, depth=2, tag="molecular-exchange"),
     dict(ens="GrandCanonical", atoms="M", table=[["e", "E_transrot"], ["d", "D_rot"]], calc="harmonic", T=400.0, mu=-0.05, depth=2, tag="molecular-exchange+rotation"),
     dict(ens="GrandCanonical", atoms="A2", table=[["e", "E_trans"], ["d", "D_ball"]], calc="harmonic", T=300.0, mu=-0.1, depth=2, check=True, tag="atomic-exchange+displacement"),
-    dict(ens="HamiltonianCanonical", atoms="A2", table=[["h", "H"]], calc="harmonic", T=300.0, depth=2, check=True, tag="hamiltonian-vetoed-attempts"),
+    dict(ens="HamiltonianCanonical", atoms="A3", table=[["h", "H"]], calc="harmonic", T=300.0, depth=2, check=True, tag="hamiltonian-vetoed-attempts"),
     dict(ens="HamiltonianCanonical", atoms="A3", table=[["h", "H1"], ["d", "D_ball"]], calc="quartic", T=500.0, depth=2, decos=["momenta"], tag="hamiltonian+displacement"),
     dict(ens="Canonical", atoms="M", table=[["r", "D_rot"], ["t", "D_trans"]], calc="harmonic", T=300.0, depth=2, check=True, tag="canonical-molecule"),
     dict(ens="Isobaric", atoms="A3", table=[["c", "C_iso"], ["d", "D_ball"]], calc="harmonic", T=300.0, P=0.005, depth=2, check=True, tag="isobaric+displacement"),
@@ -408,7 +408,7 @@ def task_real(spec):
     depth = spec["depth"]
     ens = spec["ens"]
     tag = spec["tag"]
-    pol = Policy(uniform_q=(0.2, 0.8), angular_q=None, normal_z=(-1.0, 1.0), product_limit=0, branch_calls=1)
+    pol = Policy(uniform_q=(0.2, 0.8), angular_q=None, normal_z=(-1.0, 0.6), product_limit=0, branch_calls=1)
     counters = {"evaluations": 0, "nontrivial": 0, "decisions": 0, "executions": 0}
     viol, seen, add0 = _adder()
     T = spec["T"]
